@@ -324,6 +324,34 @@ fn raw_case() -> impl Strategy<Value = Case> {
     ]
 }
 
+/// Grammar-generated (and corrupted) list expressions after 0..3 further mutations with the
+/// list's own punctuation: structures such as `1!2!3:!5!6` that raw strings rarely form.
+fn mutated_list_case() -> impl Strategy<Value = Case> {
+    let list_byte = || prop::sample::select(b"!:,@-+'\"0123456789 .eE()".to_vec());
+    let m = prop_oneof![
+        2 => Just(Mutation::None),
+        3 => (any::<u32>(), list_byte()).prop_map(|(p, v)| Mutation::Insert(p, v)),
+        3 => (any::<u32>(), list_byte()).prop_map(|(p, v)| Mutation::Flip(p, v)),
+        2 => (any::<u32>(), any::<u8>()).prop_map(|(p, n)| Mutation::Delete(p, n)),
+        1 => (any::<u32>(), any::<u8>()).prop_map(|(p, n)| Mutation::Duplicate(p, n)),
+        1 => any::<u32>().prop_map(Mutation::Truncate),
+    ];
+    (crate::props::c19::case_strategy(), proptest::collection::vec(m, 0..4), any::<bool>()).prop_map(|(c, muts, in_message)| {
+        let mut bytes = c.text.0.clone();
+        for m in &muts {
+            bytes = apply_mutation(bytes, m, b"");
+        }
+        if in_message {
+            let mut msg = b":A (".to_vec();
+            msg.extend_from_slice(&bytes);
+            msg.push(b')');
+            Case::Fixed { bytes: B(msg), plans: vec![] }
+        } else {
+            Case::List { bytes: B(bytes) }
+        }
+    })
+}
+
 pub const CLASS_ALPHABET: &[u8] = b"BE10*:?;, \n\"'#().+\xff";
 
 fn run(e: &Engine) {
@@ -387,6 +415,7 @@ fn run(e: &Engine) {
     e.proptest("mutated-messages-fixed-tree", e.tier.pick(150_000, 5_000_000), fixed_case, check);
     e.proptest("mutated-messages-generated-trees", e.tier.pick(100_000, 3_000_000), generated_case, check);
     e.proptest("raw-bytes", e.tier.pick(150_000, 5_000_000), raw_case, check);
+    e.proptest("mutated-list-expressions", e.tier.pick(400_000, 10_000_000), mutated_list_case, check);
     // every byte prefix of generated messages (truncated strings, blocks, headers ...)
     let n_msgs = e.tier.pick(3_000usize, 60_000);
     let msgs: Vec<Vec<u8>> = crate::engine::sample_strategy(&fixed_message(any::<bool>().boxed(), 4, 4, true, true), crate::engine::seed_bytes(e.seed, "C01", "prefix-pool", 0), n_msgs).into_iter().map(|m| m.render().bytes).filter(|b| b.len() <= 400).collect();
